@@ -35,7 +35,7 @@ TARGETS = ["local", "global", "elem", "mapelem"]
 FRAMES = ["direct", "catch", "funptr", "call_other", "callback"]
 MISC = ["foreach1", "foreach2", "expand", "expand_lfun", "switch_int", "switch_str", "member", "member_set", "sscanf", "parse_command",
         "aggregate", "catch_throw", "evaluate", "call_other_any", "neg_index_chain", "while_dec", "loop_cond", "string_char_inc",
-        "add_eq_chain", "sprintf_col", "sprintf_tab", "implode_fp", "sort_fp", "unique_fp", "filter_map", "save_restore", "reg_assoc", "regexp"]
+        "add_eq_chain", "sprintf_col", "sprintf_tab", "implode_fp", "sort_fp", "unique_fp", "filter_map", "save_restore", "reg_assoc", "regexp", "sprintf_fmt", "sprintf_fmt", "sscanf_fmt"]
 
 # "chain" tests: a value held by two variables goes through three statements, so that what an in-place write (copy on write) leaves
 # behind is consumed by a later operator or efun that sizes its result from the cached length / size
@@ -54,6 +54,17 @@ _FILL = [i for i, v in enumerate(genlpc.ALL_VALUES) if v[0] in ("i7", "i255", "s
 _RE_SUBJ = [i for i, v in enumerate(genlpc.ALL_VALUES) if v[0] in ("s_subject", "s_abc", "s_empty", "s_a", "s_nl", "s_256", "s_words")]
 _RE_PATS = [i for i, v in enumerate(genlpc.ALL_VALUES) if v[0] in ("a_re", "a_re2", "a_str")]
 _RE_TOKS = [i for i, v in enumerate(genlpc.ALL_VALUES) if v[0] in ("a_tok2", "a_str", "a_1")]
+
+_FLAGS = ["", "", "-", "|", "+", " ", "0", "#", "=", "@", "'x'", "'ab'", "-#", "=|", "@-", "-=", "#|"]
+_WIDTHS = ["", "", "*", "0", "1", "5", "20", "255", "256", "1000", "70000", "99999999999"]
+_PRECS = ["", "", ".*", ".0", ".1", ".5", ".300", ".70000", ".", ":3", ":*"]
+_CONVS = list("sdioxXcfgeEGO%") + ["z", "n", "p", "*"]
+_fmt_piece = st.tuples(st.sampled_from(["", "x", " ", "\n"]), st.sampled_from(_FLAGS), st.sampled_from(_WIDTHS), st.sampled_from(_PRECS),
+                       st.sampled_from(_CONVS)).map(lambda t: t[0] + "%" + t[1] + t[2] + t[3] + t[4])
+sprintf_formats = st.lists(_fmt_piece, min_size=1, max_size=4).map("".join)
+_scan_piece = st.tuples(st.sampled_from(["", "x", " ", "ab"]), st.sampled_from(["", "*", "3", "0", "300", "99999999999"]),
+                        st.sampled_from(list("sdfxc%") + ["[a-z]", "[^ ]", "[", "[]", "[a", "(a*)", "(", "*s"])).map(lambda t: t[0] + "%" + t[1] + t[2])
+sscanf_formats = st.lists(_scan_piece, min_size=1, max_size=4).map("".join)
 
 EXCLUDED_EFUNS = {"shutdown": "terminating is its documented job"}
 
@@ -96,7 +107,7 @@ def efun_call(draw):
 
 @st.composite
 def one_test(draw):
-    k = draw(st.sampled_from(["binop", "binop", "unop", "assignop", "incdec", "index", "lval", "efun", "efun", "efun", "efun", "misc", "chain", "chain"]))
+    k = draw(st.sampled_from(["binop", "binop", "unop", "assignop", "incdec", "index", "lval", "efun", "efun", "efun", "efun", "misc", "chain", "chain", "fmt"]))
     frame = draw(st.sampled_from(FRAMES))
     if k == "chain":
         def pick(pref):
@@ -123,8 +134,15 @@ def one_test(draw):
     elif k == "lval":
         t = dict(kind=k, op=draw(st.sampled_from(LVALFORMS)), vals=[draw(vals), draw(vals), draw(vals), draw(vals)])
     else:
-        op = draw(st.sampled_from(MISC))
+        op = draw(st.sampled_from(MISC)) if k != "fmt" else draw(st.sampled_from(["sprintf_fmt", "sprintf_fmt", "sprintf_fmt", "sscanf_fmt"]))
+        k = "misc"
         t = dict(kind=k, op=op, vals=[draw(vals), draw(vals), draw(vals)])
+        if op in ("sprintf_fmt", "sscanf_fmt"):
+            # a format string built from the format grammar (flags, field size, precision, '*', column / table modes), three operands
+            fm = draw(sprintf_formats if op == "sprintf_fmt" else sscanf_formats)
+            t["vals"] = [["s_genfmt", "string", genlpc.lpc_str(fm)], draw(vals), draw(vals), draw(vals)]
+            if op == "sscanf_fmt":
+                t["vals"][1] = ["s_gensubj", "string", genlpc.lpc_str(draw(st.sampled_from(["", "12 abc 3.5", "xab12 34", "a" * 500, "  ", "-7x0x1F z"])))]
         if op in ("reg_assoc", "regexp") and draw(st.integers(0, 9)) < 8:
             # mostly well-typed: a subject, an array of patterns (among them patterns that match the empty string), tokens of the same size
             t["vals"] = [list(_VALS[draw(st.sampled_from(_RE_SUBJ))]), list(_VALS[draw(st.sampled_from(_RE_PATS))]), list(_VALS[draw(st.sampled_from(_RE_TOKS))])]
@@ -198,6 +216,8 @@ def body_of(t):
         "filter_map": "return ({ filter(a, b, c), map(a, b, c) });",
         "save_restore": "return restore_variable(save_variable(a));",
         "reg_assoc": "return reg_assoc(a, b, c);",
+        "sprintf_fmt": "return sprintf(a, b, c, d);",
+        "sscanf_fmt": "mixed x, y, z; int n = sscanf(b, a, x, y, z); return ({ n, x, y, z });",
         "regexp": "return ({ regexp(({ a, a + a, \"\" }), b[0]), regexp(({ a }), b[1], 1) });",
     }
     return m[op]
